@@ -26,6 +26,10 @@ fn main() {
         robust::codec::worker(&argv[1], &argv[2]);
         return;
     }
+    if id == "C16-worker" {
+        robust::query::worker(&argv[1], &argv[2]);
+        return;
+    }
     if id == "C10-worker" {
         concmon::handles::worker(&argv[1]);
         return;
@@ -88,6 +92,7 @@ fn main() {
         "C22" => cyphermon::errors::main(&args),
         "C23" => cyphermon::laws::main(&args),
         "C33" => cyphermon::limits::main(&args),
+        "C16" => robust::query::main(&args),
         "C25" => robust::codec::main(&args),
         "C26" => structmon::btree::main(&args),
         "C27" => structmon::keys::main(&args),
